@@ -182,7 +182,10 @@ contract(AC + ".refresh",
          post_let={"S": "events('sent')"},
          emits={"sent": "GetStateCommand()"},
          ensures={"state_always_queried": "len(S) >= 1 and isinstance(S[0], GetStateCommand)",
-                  "queries_only": "len(S) <= 4"},
+                  "queries_only": "len(S) <= 4",
+                  # C01/C16: a refresh works on the complete response list of every exchange (not on the first frame that matches an id:
+                  # frames that were already queued - late or unsolicited - come first in that list and must not hide the fresh answer)
+                  "whole_response_list_of_every_exchange_is_taken": "len(events('got_list')) == len(S)"},
          loops={"0": {"match": "responses", "modifies": ALL_UPDATED}})
 
 contract(AC + ".refresh#one_state_response",
